@@ -18,6 +18,20 @@ Definition map_corr (a b : hmap) : bool :=
   meqb note_eqb (hm_hits a) (hm_hits b) && meqb note_eqb (hm_holds a) (hm_holds b)
   && meqb sample_eqb (hm_samples a) (hm_samples b).
 
+(* the stable order (what a dropped or stable sort would give), tried next to the recorded orders *)
+Fixpoint ins_idx (x : nat * Z) (l : list (nat * Z)) : list (nat * Z) :=
+  match l with
+  | [] => [x]
+  | y :: l' => if snd x <=? snd y then x :: l else y :: ins_idx x l'
+  end.
+Definition stable_order (l : list hnote) : list nat :=
+  map fst (fold_right ins_idx [] (combine (seq 0 (length l)) (map hn_off l))).
+
+Definition all_orders (src tgt : hmap) (recorded : list (list nat * list nat)) : list (list nat * list nat) :=
+  let ss := stable_order (filter loud (notes_df src)) in
+  let st := stable_order (notes_df tgt) in
+  recorded ++ flat_map (fun pq => [(fst pq, st); (ss, snd pq)]) recorded ++ [(ss, st)].
+
 Inductive c18case :=
 | C18 (src tgt : hmap) (orders : list (list nat * list nat)) (out : hmap) (src_same tgt_same : bool).
 
@@ -30,7 +44,7 @@ Definition check (c : c18case) : verdict :=
       {| corr_ok := existsb (fun pq => match hitsound_copy (fst pq) (snd pq) src tgt with
                                        | Some m => map_corr m out
                                        | None => false
-                                       end) orders;
+                                       end) (all_orders src tgt orders);
          spec_ok := negb w || (specb src tgt out && src_same && tgt_same);
          wf_ok := w |}
   end.
@@ -50,3 +64,4 @@ Definition failing (l : list c18case) := failing_go 0 l ([], [], []).
 (* short constructors for the generated case files *)
 Definition H (o c hs ss as_ cs v : Z) (f : name) : hnote := mkN o c None hs ss as_ cs v f.
 Definition L (o c : Z) (l : option Z) (hs ss as_ cs v : Z) (f : name) : hnote := mkN o c l hs ss as_ cs v f.
+
